@@ -33,10 +33,44 @@ func init() {
 		bdChild()
 		os.Exit(0)
 	}
-	hx.Register(&hx.Stream{Name: "bounded", Gen: bdGen, Exec: bdExec, Parallel: true, Timeout: 200 * time.Second})
+	hx.Register(&hx.Stream{Name: "bounded", Gen: bdGen, Exec: bdExec, Parallel: true, Timeout: 3000 * time.Second, Setup: bdCalibrate})
 }
 
-const bdWallBound = 120 * time.Second
+// bdWallBound is the wall-clock bound of one child.  It is calibrated against the current load of the
+// machine: a reference run (endless loop under computation limit 100000) is timed first, and the bound is
+// 40x the time that reference would need for the largest computation limit in use, at least 240 s.
+var bdRef = 6 * time.Second // time of the reference run (calibrated in Setup)
+var bdCalibrating bool
+
+func bdCalibrate() {
+	ref := []string{"run", "interp", "100000", "100000000", "calibration", "script", "0",
+		"access(all) fun main(): Int { var acc = 0\nwhile true { acc = acc + 1 }\nreturn acc }"}
+	t0 := time.Now()
+	bdCalibrating = true
+	_ = bdExec(ref)
+	bdCalibrating = false
+	bdRef = time.Since(t0)
+}
+
+// bdBound: the wall-clock bound for an operation with computation limit `comp`.
+func bdBound(comp uint64) time.Duration {
+	if bdCalibrating {
+		return 900 * time.Second
+	}
+	if comp < 100_000 {
+		comp = 100_000
+	}
+	b := time.Duration(float64(bdRef) * float64(comp) / 100000.0 * 40)
+	if b < 240*time.Second {
+		b = 240 * time.Second
+	}
+	if b > 2700*time.Second {
+		b = 2700 * time.Second
+	}
+	return b
+}
+
+var bdMaxComp uint64 = 300_000
 
 type bdFamily struct {
 	name string
@@ -103,23 +137,23 @@ var bdFamilies = []bdFamily{
 		return bdScript("access(all) struct T { access(all) fun m(_ n: Int): Int { return self.m(n + 1) } }", "acc = T().m(0)")
 	}},
 	{"deep-array-tostring", func(r *hx.Rng) meterx.Prog {
-		n := []int{100, 5000, 100000, 700000}[r.Intn(4)]
+		n := bdDeepSizes[r.Intn(len(bdDeepSizes))]
 		return bdScript("", fmt.Sprintf("var v: AnyStruct = 0; var i = 0; while i < %d { v = [v]; i = i + 1 }; log(v); acc = i", n))
 	}},
 	{"deep-array-export", func(r *hx.Rng) meterx.Prog {
-		n := []int{100, 5000, 100000, 700000}[r.Intn(4)]
+		n := bdDeepSizes[r.Intn(len(bdDeepSizes))]
 		return meterx.Prog{Kind: "script", Src: fmt.Sprintf("access(all) fun main(): AnyStruct { var v: AnyStruct = 0; var i = 0; while i < %d { v = [v]; i = i + 1 }; return v }", n)}
 	}},
 	{"deep-optional-equality", func(r *hx.Rng) meterx.Prog {
-		n := []int{100, 5000, 100000, 700000}[r.Intn(4)]
+		n := bdDeepSizes[r.Intn(len(bdDeepSizes))]
 		return bdScript("", fmt.Sprintf("var v: AnyStruct? = 0; var w: AnyStruct? = 0; var i = 0; while i < %d { v = [v] as [AnyStruct?]; w = [w] as [AnyStruct?]; i = i + 1 }; let t = v.getType(); if t == w.getType() { acc = 1 }", n))
 	}},
 	{"deep-dictionary-storage", func(r *hx.Rng) meterx.Prog {
-		n := []int{100, 5000, 100000}[r.Intn(3)]
+		n := bdDeepSizes[r.Intn(3)]
 		return meterx.Prog{Kind: "tx", Signers: 1, Src: fmt.Sprintf("transaction { prepare(a: auth(Storage) &Account) { var v: AnyStruct = 0; var i = 0; while i < %d { v = {\"k\": v}; i = i + 1 }; a.storage.save(v as! {String: AnyStruct}, to: /storage/deep); let c = a.storage.copy<{String: AnyStruct}>(from: /storage/deep); log(c == nil) } }", n)}
 	}},
 	{"deep-struct-chain", func(r *hx.Rng) meterx.Prog {
-		n := []int{100, 5000, 100000}[r.Intn(3)]
+		n := bdDeepSizes[r.Intn(3)]
 		return bdScript("access(all) struct N { access(all) let next: AnyStruct; init(_ n: AnyStruct) { self.next = n } }",
 			fmt.Sprintf("var v: AnyStruct = 0; var i = 0; while i < %d { v = N(v); i = i + 1 }; let c = v; log(c); acc = i", n))
 	}},
@@ -130,9 +164,17 @@ var bdFamilies = []bdFamily{
 }
 
 var bdCompLimits = []uint64{1000, 100_000, 3_000_000}
+var bdDeepSizes = []int{100, 5000, 100000, 700000}
 var bdMemLimits = []uint64{50_000, 2_000_000, 100_000_000}
 
 func bdGen(c *hx.Ctx) {
+	// quick tier: the largest computation limit is 300000 (deep values up to 60000 levels); thorough: 3000000
+	if c.Thorough() {
+		bdMaxComp = 3_000_000
+	} else {
+		bdCompLimits = []uint64{1000, 100_000, 300_000}
+		bdDeepSizes = []int{100, 5000, 60000}
+	}
 	// call depth at the boundary, default and configured limits
 	limits := []int{0, 50, 300}
 	for _, lim := range limits {
@@ -221,7 +263,12 @@ func bdExec(op []string) string {
 	if err != nil {
 		return "child-failed " + err.Error()
 	}
-	ctx, cancel := context.WithTimeout(context.Background(), bdWallBound)
+	var comp uint64 = 10_000_000 // depth operations run under this limit
+	if op[0] == "run" {
+		comp, _ = strconv.ParseUint(op[2], 10, 64)
+	}
+	bound := bdBound(comp)
+	ctx, cancel := context.WithTimeout(context.Background(), bound)
 	defer cancel()
 	cmd := exec.CommandContext(ctx, exe)
 	cmd.Env = append(os.Environ(), "VERIF_BOUNDED_CHILD=1", "GOMAXPROCS=4")
@@ -254,7 +301,7 @@ func bdExec(op []string) string {
 		return "crash:" + hx.Clean(first)
 	}
 	slow := ""
-	if time.Since(t0) > 40*time.Second {
+	if time.Since(t0) > bound/3 {
 		slow = " slow"
 	}
 	return strings.TrimRight(string(out), "\n") + slow
